@@ -10,7 +10,9 @@ namespace Bb
 
 /-- proc_macro2 token trees of an attribute's argument list. `..=` is three puncts. -/
 inductive Tok where
-  | lit (s : String)
+  /-- a literal token; `val` is what `lit.to_string().parse::<usize>()` yields (`parse_literal_number`):
+      `none` for text that is not a plain decimal `usize` (hex, suffixed, too large, …) -/
+  | lit (val : Option Nat)
   | punct (c : Char)
   | ident (s : String)
   | group (delim : Char) (ts : List Tok)
